@@ -729,6 +729,34 @@ def check_adaptors(ctx, case):
             safe_call(idx.close)
 
 
+def fs_key_table(ctx):
+    """FsPath.getKey ~ DataFileSystem._get_key, exhaustively over every path spelling of up to 6 characters over {a, b, '.', '/'}
+    (5461 strings: absolute and relative, empty, runs of slashes, '.' and '..' components, '..' above the root)"""
+    import itertools
+
+    from dvc_data.fs import DataFileSystem
+    from dvc_data.index import DataIndex
+
+    dfs = DataFileSystem(index=DataIndex())
+    paths = [""]
+    for n in range(1, 7):
+        paths += ["".join(t) for t in itertools.product("ab./", repeat=n)]
+    impl = [list(dfs._get_key(p)) for p in paths]
+    model = ctx.driver.ask({"op": "fs_key", "paths": paths})["keys"]
+    ctx.evaluations += len(paths)
+    ctx.exhaustive["DataFileSystem._get_key over %d path spellings (length <= 6 over {a, b, '.', '/'})" % len(paths)] = True
+    bad = [i for i, (a, b) in enumerate(zip(impl, model)) if a != b]
+    if bad:
+        i = bad[0]
+        ctx.corr("FsPath.getKey~DataFileSystem._get_key (table)", {"path": paths[i]}, impl[i], model[i])
+    else:
+        ctx.traces += len(paths)
+    # the property itself on the implementation: the key read from the spelled-out key is that key
+    for k in impl:
+        if k:
+            ctx.oracle(list(dfs._get_key("/" + "/".join(k))) == k, {"key": k}, {"why": "the adaptor does not read back the key it spelled out"})
+
+
 def run(ctx):
     ctx.rule = (
         "indexes mixing explicit files, explicit or implicit directories and 1-2 unloaded directory objects (nested listings, depth "
@@ -744,10 +772,11 @@ def run(ctx):
         "it; later revisions rewrite / drop / add files), in one shared object database (80%) or one per revision, each revision as "
         "a lazy and as an explicitly expanded index (memory / SQLite); 3-7 adaptors over these indexes or over views of them with "
         "random prefix-closed filters, created all up front or one at a time: every adaptor's find / info / cat / ls must show "
-        "exactly the files, hashes and bytes of the index or view it was built over"
+        "exactly the files, hashes and bytes of the index or view it was built over. Exhaustive: the adaptor's path -> key conversion over every spelling of up to 6 characters over {a, b, '.', '/'}"
     )
     ctx.assumptions = ["len() of an index before any access is not load-transparent and not part of the property"]
     root_key_cases(ctx)
+    fs_key_table(ctx)
     for _ in range(ctx.n(110, 1500)):
         check(ctx, gen_case(ctx.rng))
     for _ in range(ctx.n(40, 400)):
